@@ -21,7 +21,7 @@ impl Check for C13 {
     }
     fn cases(&self, tier: Tier) -> u64 {
         match tier {
-            Tier::Quick => 30_000,
+            Tier::Quick => 100_000,
             Tier::Thorough => 800_000,
         }
     }
